@@ -120,7 +120,9 @@ Record req := {
   r_vals : list nat;             (* fields given as keyword arguments of split() *)
   r_nonseq : list nat;           (* those of them whose value is not a sequence (or is a str/mapping) *)
   r_comb : option (list nat);    (* .combine(...) argument, None when combine is not called *)
-  r_task : list nat              (* the field names of the task *)
+  r_task : list nat;             (* the field names of the task *)
+  r_node : bool                  (* false: the task is submitted directly; true: it is added to a workflow
+                                    (workflow.add) as a node without split upstream nodes *)
 }.
 
 Inductive verr := VDup | VMissing | VStray | VNotSeq | VCombNotInTask | VCombNotSplit | VCombNoSplit.
@@ -146,7 +148,17 @@ Definition split_stage (r : req) : verr + option spl :=
       else inr (match r_vals r with [] => None | vs => Some (Outer (map Fld vs)) end)
   end.
 
-(* Task.combine, then Submitter.__call__ / State.combiner_validation *)
+(* Node._set_state (pydra/engine/node.py): a node gets a State when it has a splitter, a combiner or split
+   upstream nodes (none here) *)
+Definition node_has_state (os : option spl) (comb : list nat) : bool :=
+  match os with Some _ => true | None => negb (Nat.eqb (List.length comb) 0) end.
+
+(* Task.combine, then
+   - submitted directly: Submitter.__call__ (combiner without splitter -> ValueError), State.combiner_validation
+     while the implicit Split workflow is expanded;
+   - as a workflow node: Node._set_state creates the State, Node.lzout asks it for State.depth(), whose
+     assertion fails for a State that has a combiner but an empty splitter; State.combiner_validation when the
+     node's states are prepared *)
 Definition validate (r : req) : verr + option spl :=
   match split_stage r with
   | inl x => inl x
@@ -155,7 +167,9 @@ Definition validate (r : req) : verr + option spl :=
       if negb (subsetb comb (r_task r)) then inl VCombNotInTask
       else match os with
            | Some s => if negb (subsetb comb (leaves s)) then inl VCombNotSplit else inr (Some s)
-           | None => match comb with [] => inr None | _ => inl VCombNoSplit end
+           | None =>
+               if r_node r then (if node_has_state None comb then inl VCombNoSplit else inr None)
+               else match comb with [] => inr None | _ => inl VCombNoSplit end
            end
   end.
 
